@@ -382,3 +382,22 @@ def run(ctx):
         ctx.check(not [o for o in outs if o.kind == "ret" and o.ret == INT(0)], "R7.4",
                   "%s:propagates-%s-failure" % (tname, bname), fn.loc(),
                   "%s succeeds although %s refused the transition" % (tname, bname))
+
+
+_run_base = run
+
+
+def run(ctx):
+    _run_base(ctx)
+    prog = ctx.prog
+    ctx.rule("R7.6", "the task channels accept what the life-cycle writes: with the channel properties the model's own "
+             "thread spec gives its channels (model_thread_create interpreted with chan.c's chan_init / "
+             "chan_prop_set), the switch / running function is accepted by chan.c's own chan_set when the next task "
+             "has the same type, application, rank or body number as the one shown; the duplicate table a model "
+             "declares is the one its thread channel spec names; the rank shown while a body runs comes from "
+             "whichever stream of the process carries it (C15 R15.4: create_proc merges every stream's metadata)")
+    from rules import round3
+    round3.check_task_channels_rewrite(ctx, "R7.6", spec())
+    round3.check_dup_table_on_thread_spec(ctx, "R7.6")
+    round3.share(ctx, "R7.6", "C15", lambda i_: i_["rule"] == "R15.4" and i_["inst"].startswith("create_proc:"), "rank-source:",
+                 "no thread of the process shows its rank while a task body runs", 1)
